@@ -540,7 +540,7 @@ func init() {
 				case 1:
 					initial[k] = "deny"
 				case 2:
-					initial[k] = []string{"Allow", "yes", "true", ""}[r.IntN(4)] // invalid values mean deny
+					initial[k] = []string{"Allow", "yes", "true", "", "Deny", "DENY"}[r.IntN(6)] // (case variants; invalid values mean deny)
 				}
 			}
 			initial["external-has-lua"] = "true"
